@@ -188,13 +188,13 @@ def run_shard(shard):
             acc.label('g3_%s_%s' % (kind_, 'accepted' if info.get('ref') == 'ok' else 'rejected'))
         run_given(mutant(), body, shard['n'], shard['hseed'], acc)
     acc.extra['productions_reduced'] = sorted('%s/%d' % p for p in _prod_seen)
-    acc.extra['productions_total'] = len(_prod_all or ())
+    acc.extra['productions_total'] = [len(_prod_all or ())]
     return acc.result()
 
 
 def finish(m, cov, tier):
     red = m['extra'].get('productions_reduced', [])
-    cov['production_coverage'] = {'reduced': len(red), 'total_shapes': m['extra'].get('productions_total'),
+    cov['production_coverage'] = {'reduced': len(red), 'total_shapes': (m['extra'].pop('productions_total', None) or [None])[0],
                                   'note': 'shape = (p_ function, number of symbols); recorded by wrapping the '
                                           'imported Parser class from outside'}
     m['extra'].pop('productions_reduced', None)
